@@ -106,6 +106,19 @@ pub mod task {
     }
 }
 
+pub mod runtime {
+    /// stand-in for the runtime handle: `block_on` polls inline
+    pub struct Handle;
+    impl Handle {
+        pub fn current() -> Handle {
+            Handle
+        }
+        pub fn block_on<F: std::future::Future>(&self, fut: F) -> F::Output {
+            crate::block_on(fut)
+        }
+    }
+}
+
 pub mod time {
     pub use std::time::Duration;
     /// completes immediately (the real call only waits for a background fsync)
@@ -124,6 +137,20 @@ pub mod sync {
         }
         pub fn lock(&self) -> std::future::Ready<std::sync::MutexGuard<'_, T>> {
             std::future::ready(self.0.lock().unwrap_or_else(|e| e.into_inner()))
+        }
+    }
+    /// uncontended stand-in: `read()` / `write()` are ready at once
+    #[derive(Debug, Default)]
+    pub struct RwLock<T>(std::sync::RwLock<T>);
+    impl<T> RwLock<T> {
+        pub fn new(v: T) -> Self {
+            RwLock(std::sync::RwLock::new(v))
+        }
+        pub fn read(&self) -> std::future::Ready<std::sync::RwLockReadGuard<'_, T>> {
+            std::future::ready(self.0.read().unwrap_or_else(|e| e.into_inner()))
+        }
+        pub fn write(&self) -> std::future::Ready<std::sync::RwLockWriteGuard<'_, T>> {
+            std::future::ready(self.0.write().unwrap_or_else(|e| e.into_inner()))
         }
     }
 }
